@@ -71,7 +71,9 @@ SOFTWARE, EVEN IF ADVISED OF THE POSSIBILITY OF SUCH DAMAGE.
 #define MAX_ARGS_IDENTIFIER  32
 #define MAX_ARGS_EXT_VAR     32
 #define MAX_ARGS_MODULE_DATA 32
+#ifndef MAX_QUEUED_FILES
 #define MAX_QUEUED_FILES     64
+#endif
 
 #define exit_with_code(code) \
   {                          \
@@ -425,6 +427,34 @@ static void file_queue_destroy()
   cli_semaphore_destroy(&used_slots);
 }
 
+#ifdef YARA_VERIF
+// Verification hook H6: queue events, written while queue_mutex is held. The
+// trace goes to the file named by the YARA_VERIF_TRACE environment variable.
+static FILE* yr_verif_trace = NULL;
+static long yr_verif_seq = 0;
+
+static void yr_verif_queue_event(
+    const char* op,
+    int head,
+    int tail,
+    const char_t* path)
+{
+  if (yr_verif_trace != NULL)
+    fprintf(
+        yr_verif_trace,
+        "%s %ld %d %d %s\n",
+        op,
+        ++yr_verif_seq,
+        head,
+        tail,
+        path != NULL ? path : "-");
+}
+#define YR_VERIF_QUEUE(op, path) \
+  yr_verif_queue_event(op, queue_head, queue_tail, path)
+#else
+#define YR_VERIF_QUEUE(op, path)
+#endif
+
 static void file_queue_finish()
 {
   for (int i = 0; i < YR_MAX_THREADS; i++) cli_semaphore_release(&used_slots);
@@ -439,6 +469,7 @@ static int file_queue_put(const char_t* file_path, time_t deadline)
 
   file_queue[queue_tail].path = _tcsdup(file_path);
   queue_tail = (queue_tail + 1) % (MAX_QUEUED_FILES + 1);
+  YR_VERIF_QUEUE("put", file_path);
 
   cli_mutex_unlock(&queue_mutex);
   cli_semaphore_release(&used_slots);
@@ -465,6 +496,7 @@ static char_t* file_queue_get(time_t deadline)
     queue_head = (queue_head + 1) % (MAX_QUEUED_FILES + 1);
   }
 
+  YR_VERIF_QUEUE("get", result);
   cli_mutex_unlock(&queue_mutex);
   cli_semaphore_release(&unused_slots);
 
@@ -1618,6 +1650,11 @@ int _tmain(int argc, const char_t** argv)
   }
   else if (scan_list_search || arg_is_dir)
   {
+#ifdef YARA_VERIF
+    if (getenv("YARA_VERIF_TRACE") != NULL)
+      yr_verif_trace = fopen(getenv("YARA_VERIF_TRACE"), "w");
+#endif
+
     if (file_queue_init() != 0)
     {
       print_error(ERROR_INTERNAL_FATAL_ERROR);
@@ -1671,6 +1708,10 @@ int _tmain(int argc, const char_t** argv)
       yr_scanner_destroy(thread_args[i].scanner);
 
     file_queue_destroy();
+#ifdef YARA_VERIF
+    if (yr_verif_trace != NULL)
+      fclose(yr_verif_trace);
+#endif
 
     if (result != ERROR_SUCCESS)
       exit_with_code(EXIT_FAILURE);
